@@ -608,14 +608,20 @@ class Bundle:
             g = [] if literal else ["func cb%d(%s)%s {" % (ci, ", ".join(gparams), gret)] + body + ["}"]
             g.append("func case%d() {" % ci)
             g += go_fill("s", "arg", tn, lv)
+            # the argument is an earlier copy of a variable one of whose fields is overwritten before the call (same
+            # block, no call in between): the callee must receive what the copy held
+            t0, _, g0 = lv[0]
+            g.append("\tprev := s")
+            g.append("\ts%s = %s" % (g0, go_lit(leaf_value(tag, "arg.alt", t0), t0)))
             pa, qa, ra = go_scalar_args("arg")
-            call = "cb.A%d(%s)" % (ci, ", ".join(pa + ["s", qa, ra]))
+            call = "cb.A%d(%s)" % (ci, ", ".join(pa + ["prev", qa, ra]))
             if rsh:
                 g.append("\to := " + call)
                 g.append(go_print("res", "o", False, rlv))
             else:
                 g.append("\t" + call)
-            g.append(go_print("keep", "s", False, lv))
+            g.append("\tcb.Sink(unsafe.Pointer(&s))")
+            g.append(go_print("keep", "prev", False, lv))
             if literal:
                 g.append("\tcb.C%d(func(%s)%s {" % (ci, ", ".join(gparams), gret))
                 g += ["\t" + x for x in body]
@@ -652,10 +658,12 @@ def gen_cstr(cases, expect):
           "//go:linkname Peek C.c09_peek", "func Peek(p *int8, i int64) int32",
           "//go:linkname Table C.c09_table", "func Table(i int32) *int8",
           "//go:linkname Copy C.c09_copy", "func Copy(dst *byte, src *byte, n int64) int64",
+          "//go:linkname Scribble C.c09_scribble", "func Scribble(p *int8, n int64)",
           "//go:linkname AllocCStr llgo.allocCStr", "func AllocCStr(s string) *int8",
           "//go:linkname AllocaCStr llgo.allocaCStr", "func AllocaCStr(s string) *int8",
           "//go:linkname GoString llgo.string", "func GoString(cstr *int8, __llgo_va_list ...any) string", ""]
     c = ["long long c09_strlen(const char *p){ return (long long)strlen(p); }",
+         "void c09_scribble(char *p, long long n){ for (long long i = 0; i < n; i++) p[i] = 'X'; }",
          "int c09_peek(const char *p, long long i){ return (unsigned char)p[i]; }",
          "long long c09_copy(unsigned char *dst, const unsigned char *src, long long n){ long long s = 0; for (long long i = 0; i < n; i++){ dst[i] = src[i]; s += src[i]; } return s; }"]
     tbl = []
@@ -672,6 +680,9 @@ def gen_cstr(cases, expect):
         expect[("S%d" % i, "back")] = [("len", len(back))] + [("b[%d]" % k, b) for k, b in enumerate(back)]
         expect[("S%d" % i, "backn")] = [("len", len(backn))] + [("b[%d]" % k, b) for k, b in enumerate(backn)]
         expect[("S%d" % i, "fromc")] = [("len", len(back))] + [("b[%d]" % k, b) for k, b in enumerate(back)]
+        # CStr.tla, law Snapshot: a Go string made from a C buffer keeps its bytes when C overwrites the buffer afterwards
+        expect[("S%d" % i, "late")] = [("len", len(back))] + [("b[%d]" % k, b) for k, b in enumerate(back)]
+        expect[("S%d" % i, "laten")] = [("len", len(backn))] + [("b[%d]" % k, b) for k, b in enumerate(backn)]
         expect[("S%d" % i, "bytes")] = [("sum", sum(by))] + [("b[%d]" % k, b) for k, b in enumerate(by)]
     c.append("static const char *c09_tbl[] = {\n" + "\n".join(tbl) + "\n};")
     c.append("const char *c09_table(int i){ return c09_tbl[i]; }")
@@ -703,6 +714,11 @@ func cstrOne(i int, s string) {
 	dumpStr(i, "back", cb.GoString(p))
 	dumpStr(i, "backn", cb.GoString(q, len(s)))
 	dumpStr(i, "fromc", cb.GoString(cb.Table(int32(i))))
+	r := cb.AllocCStr(s)
+	late, laten := cb.GoString(r), cb.GoString(r, len(s))
+	cb.Scribble(r, int64(len(s)))
+	dumpStr(i, "late", late)
+	dumpStr(i, "laten", laten)
 	src := []byte(s)
 	dst := make([]byte, len(src)+1)
 	var sum int64
